@@ -826,7 +826,9 @@ class JinjaTemplater(PythonTemplater):
                     in_str, syntax_tree, undefined_variables
                 ),
             )
-        except (TemplateError, TypeError, ValueError) as err:
+        except (TemplateError, TypeError, ValueError, ArithmeticError) as err:
+            # ArithmeticError covers e.g. {{ 1 // zero }} (ZeroDivisionError) raised
+            # while rendering, which should be reported rather than crash.
             # ValueError is caught to handle multi-variable for-loop unpacking
             # failures, e.g. {% for key, val in undefined_var.items() %} raises
             # "not enough values to unpack" because the undefined stub yields
